@@ -97,7 +97,14 @@ def lin_time(v):
             if psi.is_int_const(s) and psi.is_int_const(ns):
                 return Lin({}, s[1] * 1_000_000_000 + ns[1])
             return None
-        if v[1] == 'std::time::Duration' or v[1] == 'core::time::Duration':
+        if v[1] == 'std::time::Duration' and len(v[3]) == 2 and psi.is_int_const(v[3][0]):
+            ns = v[3][1]
+            while ns[0] == 'agg' and len(ns[3]) == 1:
+                ns = ns[3][0]
+            if psi.is_int_const(ns):
+                return Lin({}, v[3][0][1] * 1_000_000_000 + ns[1])
+            if ns[0] == 'c' and isinstance(ns[1], tuple) and ns[1][0] == 'b':
+                return Lin({}, v[3][0][1] * 1_000_000_000 + int.from_bytes(bytes.fromhex(ns[1][1]), 'little'))
             return None
     if k == 't':
         op, a = v[1], v[2]
